@@ -12,26 +12,281 @@ _M = "esrally/metrics.py"
 _R = "esrally/racecontrol.py"
 
 
+class _SamplerFlow:
+    """Abstract interpretation of the Worker actor over two facts, interprocedural over its own methods (handlers -> drive() -> drive()):
+         R  the load-generator thread may (still) be running, i.e. may add samples to the sampler it was given (1), none has been started since the step began (0),
+            or its completion has been observed (2);
+         U  the worker's current sampler may hold samples that no drain has read.
+       Events (all located by role, none by local name):
+         drain    a read of the DRAINING property of the sampler attribute (the attribute that is assigned an instance of a class of the module, read through one of that class's properties):
+                  U := R  (a drain that runs while the executor may still add samples protects nothing: whatever is added afterwards is undrained again)
+         submit   the pool call whose result becomes the future attribute: R := 1, U := 1
+         finished `<future>.result()` / `<future>.exception()` returned, or the branch facts `<future>.done()` / `<future> is None` hold: R := 2 (observed)
+         no sampler   branch fact `not <sampler>`: U := 0;   start-of-step flag (the one-shot flag the wake-up handler consumes before it drives on): R := 0, U := 0 - the flag is
+                  raised by the driver's Drive message, which is sent when every worker waits at the join point, where this worker has dropped its sampler
+         write    an assignment to the sampler attribute: the OLD sampler becomes unreachable - the obligation is that U == 0 in every state that reaches it.
+       Every handler starts in the worst state (R=1, U=1: a message may arrive while the executor runs) except the handlers that receive what an executor is built from (they
+       necessarily precede the first executor: R=0, U=0). A state also remembers the last drain that ran while R was still 1 (for the diagnosis)."""
+
+    def __init__(self, drv, W):
+        self.drv = drv
+        self.wm = drv.methods(W)
+        # the sampler attribute: assigned an instance of a class of this module one of whose properties the worker reads through that attribute (the draining property; that every
+        # read of it empties the queue and returns all of it is O7.1, that the ship routine sends what it read is O7.2)
+        props = {c.name: {f.name for f in drv.methods(c).values() if any((dotted(d) or "") == "property" for d in f.decorator_list)} for c in drv.classes()}
+        reads = {}
+        for f in self.wm.values():
+            for x in walk_body(f):
+                if isinstance(x, ast.Attribute) and isinstance(x.ctx, ast.Load) and is_self_attr(x.value):
+                    reads.setdefault(x.value.attr, set()).add(x.attr)
+        self.sampler = self.prop = self.future = None
+        self.submits = []
+        for f in self.wm.values():
+            defs = local_defs(f)
+            for n in walk_body(f):
+                if not (isinstance(n, ast.Assign) and len(n.targets) == 1 and is_self_attr(n.targets[0])):
+                    continue
+                v = defs.get(n.value.id, n.value) if isinstance(n.value, ast.Name) else n.value
+                if isinstance(v, ast.Call):
+                    hit = sorted(props.get(last_attr(v.func), set()) & reads.get(n.targets[0].attr, set()))
+                    if hit:
+                        self.sampler, self.prop = n.targets[0].attr, hit[0]
+                    if last_attr(v.func) == "submit":
+                        self.future = n.targets[0].attr
+                        self.submits.append(v)
+        if self.sampler is None:
+            raise AnchorMissing("Worker attribute that is assigned a sampler (instance of a class whose property the worker reads through it)")
+        if self.future is None:
+            raise AnchorMissing("Worker attribute that is assigned the future of the submitted executor")
+        # what the executor is built from: self attributes among the arguments of the submitted callable's constructor
+        self.exec_inputs = set()
+        for s in self.submits:
+            f = source.enclosing_func(s)
+            defs = local_defs(f)
+            for a in s.args[:1]:
+                a = defs.get(a.id, a) if isinstance(a, ast.Name) else a
+                self.exec_inputs |= {x.attr for x in ast.walk(a) if is_self_attr(x) and x.attr != self.sampler}
+        self.roots = {n: f for n, f in self.wm.items() if n.startswith("receiveMsg_") or n == "receiveUnrecognizedMessage"}
+        self.pre_start = set()
+        for n, f in self.roots.items():
+            ps = params_of(f)
+            mp = ps[1] if len(ps) > 1 else None
+            if mp and any(isinstance(a, ast.Assign) and any(is_self_attr(t) and t.attr in self.exec_inputs for t in a.targets) and any(isinstance(x, ast.Name) and x.id == mp for x in ast.walk(a.value))
+                          for a in walk_body(f)):
+                self.pre_start.add(n)
+        # the one-shot start-of-step flag: tested by a timer handler that lowers it in the arm it guards, raised by another handler
+        self.flag = None
+        from sa import pat
+        for f in self.roots.values():
+            for n in walk_body(f):
+                if isinstance(n, ast.Assign) and len(n.targets) == 1 and is_self_attr(n.targets[0]) and source.is_const(n.value, False):
+                    a = n.targets[0].attr
+                    if any(is_self_attr(t, a) for t in pat.fact_nodes(n)) and any(
+                            isinstance(m, ast.Assign) and any(is_self_attr(t, a) for t in m.targets) and source.is_const(m.value, True) for g in self.roots.values() if g is not f for m in walk_body(g)):
+                        self.flag = a
+        self.early = []      # drains that ran while the executor could still add samples
+        self.summ = {}       # (method, entry state) -> normal-exit states
+        self.at_write = {}   # id(write stmt) -> (stmt, {(root, state)})
+        self.writes = [n for f in self.wm.values() if f.name != "__init__" for n in walk_body(f) if self._is_write(n)]
+        self._active = set()
+        self._root = None
+        for _ in range(12):
+            before = {k: set(v) for k, v in self.summ.items()}
+            for n, f in self.roots.items():
+                self._root, self._done = n, set()  # summaries are re-derived per handler so that every write records the handler it is reached from
+                self._run(f, (0, 0, None) if n in self.pre_start else (1, 1, None))
+            if before == self.summ:
+                break
+        else:
+            raise AnchorMissing("sampler-flow analysis of Worker did not reach a fixed point")
+
+    # -- events ----------------------------------------------------------------------------------------------------------------------------
+    def _is_write(self, n):
+        ts = n.targets if isinstance(n, ast.Assign) else [n.target] if isinstance(n, (ast.AugAssign, ast.AnnAssign)) else []
+        return any(is_self_attr(x, self.sampler) and isinstance(x.ctx, ast.Store) for t in ts for x in ast.walk(t))
+
+    def _events(self, node, defs):
+        s = node.ast
+        if node.kind == "test":
+            roots = [s.test] if hasattr(s, "test") else [s.subject]
+        elif node.kind == "for":
+            roots = [s.iter]
+        elif node.kind == "with":
+            roots = [i.context_expr for i in s.items]
+        elif node.kind == "stmt" and not isinstance(s, (ast.FunctionDef, ast.AsyncFunctionDef, ast.ClassDef)):
+            roots = [s]
+        else:
+            return []
+
+        def post(n):  # evaluation order: operands before the operation they feed (no source positions involved)
+            for c in ast.iter_child_nodes(n):
+                if not isinstance(c, source.SCOPE_TYPES):
+                    yield from post(c)
+            yield n
+
+        ev = []
+        for r in roots:
+            for n in post(r):
+                if isinstance(n, ast.Attribute) and isinstance(n.ctx, ast.Load) and n.attr == self.prop and self._is(n.value, self.sampler, defs):
+                    ev.append(("drain", n))
+                elif isinstance(n, ast.Call) and last_attr(n.func) == "submit" and isinstance(n.func, ast.Attribute):
+                    ev.append(("submit", n))
+                elif isinstance(n, ast.Call) and isinstance(n.func, ast.Attribute) and n.func.attr in ("result", "exception") and self._is(n.func.value, self.future, defs):
+                    ev.append(("finished", n))
+                elif isinstance(n, ast.Call) and is_self_attr(n.func) and n.func.attr in self.wm:
+                    ev.append(("call", n))
+        if node.kind == "stmt" and self._is_write(s):
+            ev.append(("write", s))
+        return ev
+
+    @staticmethod
+    def _is(e, attr, defs):
+        """e is self.<attr>, or a single-assignment local that was bound to it."""
+        return is_self_attr(e, attr) or (isinstance(e, ast.Name) and e.id in defs and is_self_attr(defs[e.id], attr))
+
+    def _refine(self, st, test, pol, defs):
+        """the state on the branch of `test` with polarity pol: atomic facts of the (negated) test."""
+        from sa.cfg import conjuncts, negate
+        r, un, tag = st
+        test = source.inline_node(test, defs)  # a test kept in a single-assignment local reads like the test itself
+        for f in conjuncts(test if pol else negate(test)):
+            if isinstance(f, ast.Call) and isinstance(f.func, ast.Attribute) and f.func.attr == "done" and is_self_attr(f.func.value, self.future):
+                r = 2 if r == 1 else r
+            elif isinstance(f, ast.Compare) and len(f.ops) == 1 and isinstance(f.ops[0], ast.Is) and is_self_attr(f.left, self.future) and source.is_const(f.comparators[0]) and f.comparators[0].value is None:
+                r = 2 if r == 1 else r
+            elif isinstance(f, ast.UnaryOp) and isinstance(f.op, ast.Not) and is_self_attr(f.operand, self.sampler):
+                un, tag = 0, None
+            elif isinstance(f, ast.Compare) and len(f.ops) == 1 and isinstance(f.ops[0], ast.Is) and is_self_attr(f.left, self.sampler) and source.is_const(f.comparators[0]) and f.comparators[0].value is None:
+                un, tag = 0, None
+            elif self.flag is not None and is_self_attr(f, self.flag):
+                r, un, tag = 0, 0, None
+        return (r, un, tag)
+
+    def _apply(self, node, states, defs):
+        for kind, n in self._events(node, defs):
+            out = set()
+            for st in states:
+                r, un, tag = st
+                if kind == "drain":
+                    if r == 1:
+                        if n not in self.early:
+                            self.early.append(n)
+                        out.add((1, 1, self.early.index(n)))
+                    else:
+                        out.add((r, 0, None))
+                elif kind == "submit":
+                    out.add((1, 1, None))
+                elif kind == "finished":
+                    out.add((2 if r == 1 else r, un, tag))
+                elif kind == "write":
+                    self.at_write.setdefault(id(n), (n, set()))[1].add((self._root, st))
+                    out.add((r, 1 if r == 1 else 0, None))
+                elif kind == "call":
+                    for r2, u2, t2 in self._run(self.wm[n.func.attr], st):
+                        if t2 is not None and t2 != tag:  # an early drain inside the callee: name this call site in the diagnosis
+                            if n not in self.early:
+                                self.early.append(n)
+                            t2 = self.early.index(n)
+                        out.add((r2, u2, t2))
+            states = out
+        return states
+
+    def _run(self, f, entry):
+        """normal-exit states of method f entered in state `entry`. Inside the method a state also carries what is known about single-assignment boolean locals that were computed
+        from the future / sampler / flag (`finished = fut is not None and fut.done()` ... `if finished:`): the observation counts from where it was MADE, not from where it is used."""
+        from sa.cfg import conjuncts, negate
+        k = (f.name, entry)
+        if k in self._done or k in self._active:
+            return set(self.summ.get(k, ()))
+        self._active.add(k)
+        g, defs = cfg_of(f), local_defs(f)
+        inn = {g.entry.id: {(entry, frozenset())}}
+        work = [g.entry.id]
+        exits = set()
+        while work:
+            x = work.pop()
+            node = g.nodes[x]
+            sin = inn.get(x, set())
+            if x == g.exit.id:
+                exits |= {c for c, _ in sin}
+                continue
+            if x == g.raise_exit.id:
+                continue
+            sout = set()
+            for facts in {fa for _, fa in sin}:
+                sout |= {(c, facts) for c in self._apply(node, {c for c, fa in sin if fa == facts}, defs)}
+            s = node.ast
+            if node.kind == "stmt" and isinstance(s, ast.Assign) and len(s.targets) == 1 and isinstance(s.targets[0], ast.Name) and defs.get(s.targets[0].id) is s.value:
+                forked = set()
+                for c, fa in sout:
+                    ct, cf = self._refine(c, s.value, True, defs), self._refine(c, s.value, False, defs)
+                    forked |= {(c, fa)} if ct == c and cf == c else {(ct, fa | {(s.targets[0].id, True)}), (cf, fa | {(s.targets[0].id, False)})}
+                sout = forked
+            for y, lab in g.succ[x]:
+                if g.normal_edge(x, y, lab):
+                    nxt = sout
+                    if node.kind == "test" and lab in ("true", "false") and hasattr(s, "test"):
+                        pol = lab == "true"
+                        atoms = conjuncts(s.test if pol else negate(s.test))
+                        contra = {(a.id, False) for a in atoms if isinstance(a, ast.Name)} | {(a.operand.id, True) for a in atoms if isinstance(a, ast.UnaryOp) and isinstance(a.op, ast.Not) and isinstance(a.operand, ast.Name)}
+                        nxt = {(self._refine(c, s.test, pol, defs), fa) for c, fa in sout if not (contra & fa)}  # states that contradict a recorded local are infeasible on this branch
+                else:
+                    nxt = sin | sout  # the statement raised somewhere in the middle
+                cur = inn.setdefault(y, set())
+                if not nxt <= cur:
+                    cur |= nxt
+                    work.append(y)
+        self._active.discard(k)
+        self._done.add(k)
+        self.summ[k] = self.summ.get(k, set()) | exits
+        return set(self.summ[k])
+
+    # -- results ---------------------------------------------------------------------------------------------------------------------------
+    def drainers(self):
+        """methods of the worker that read the draining property themselves (the ship routine)."""
+        return {n for n, f in self.wm.items() if any(isinstance(x, ast.Attribute) and isinstance(x.ctx, ast.Load) and x.attr == self.prop and is_self_attr(x.value, self.sampler) for x in walk_body(f))}
+
+    def verdict(self, w):
+        """(reached, ok, detail) for one write of the sampler attribute."""
+        seen = self.at_write.get(id(w), (w, set()))[1]
+        bad = sorted(((root, st) for root, st in seen if st[1]), key=lambda x: (x[0], x[1][0], -1 if x[1][2] is None else x[1][2]))
+        if not bad:
+            return bool(seen), True, ""
+        root, (r, _, tag) = bad[0]
+        if tag is not None:
+            d = self.early[tag]
+            why = f"the last drain before it (`{short(source.enclosing_stmt(d), 60)}` in {source.qualname(d)}) runs while the load generator may still add samples; its completion is observed only afterwards"
+        else:
+            why = "no drain of the old sampler since the load generator could last add samples"
+        return True, False, f"reached from {root}" + (" with the load generator possibly still running" if r == 1 else " after the load generator has finished") + f": {why} - the samples queued in between are garbage collected with the old sampler"
+
+
 def drain_before_drive_rule(chk, rid, drv):
-    """Worker.receiveMsg_WakeupMessage: drive() replaces the sampler when the next row holds tasks, so on the wake-up that finds the executor finished the old sampler must have
-    been drained (send_samples) before drive() is reached — shared with C04 (one sample per executed request also survives a task switch without a join point)."""
-    from sa import pat
+    """Every path on which the worker replaces (or drops) its sampler passes through a drain of the OLD sampler after the last point at which the load generator can add samples
+    (shared with C04: one sample per executed request also survives a task switch without a join point). The periodic drain of the wake-up handler does NOT qualify when it runs
+    before the handler observes that the executor has finished (F23): the executor can finish - and record its last samples - between that drain and the done() check. Where the
+    qualifying drain is written (in drive() right before the replacement, or in the wake-up handler after the done() check) does not matter."""
     W = drv.cls("Worker")
     wk = drv.methods(W).get("receiveMsg_WakeupMessage")
     if wk is None:
         raise AnchorMissing("Worker.receiveMsg_WakeupMessage")
-    gk = cfg_of(wk)
-    dcalls = [c for c in source.calls_in(wk, attr="drive") if u(c.func) == "self.drive"]
-    drains = [c for c in walk_body(wk) if isinstance(c, ast.Call) and last_attr(c.func) == "send_samples"]
-    n_live = 0
-    for c in dcalls:
-        if pat.guarded(c, "self.start_driving") is not None:
-            continue  # start of a step: the sampler was drained and dropped at the join point
-        n_live += 1
-        ok = bool(drains) and gk.dominated_by_nodes(gk.node_of(c), [gk.node_of(d) for d in drains])
-        chk.ob(rid, "wake-up that moves on to the next row drains the sampler before drive() replaces it", ok, c, "" if ok else "drive() is reached without send_samples(): a following task row replaces the sampler undrained",
-               key="esrally/driver/driver.py:Worker.receiveMsg_WakeupMessage:drain-before-drive")
-    chk.ob(rid, "executor-finished branch located in the wake-up handler", n_live >= 1, wk, f"{n_live} drive() call(s) outside the start-of-step branch")
+    flow = _SamplerFlow(drv, W)
+    if flow.flag is None:
+        raise AnchorMissing("one-shot start-of-step flag consumed by a handler of Worker (raised by another handler)")
+    if not flow.writes:
+        raise AnchorMissing("assignment to the sampler attribute of Worker outside __init__")
+    for w in flow.writes:
+        kind = "dropped" if isinstance(w, ast.Assign) and source.is_const(w.value) and w.value.value is None else "replaced"
+        reached, ok, detail = flow.verdict(w)
+        if not reached:
+            chk.unknown(rid, f"the write of the sampler attribute in {source.qualname(w)} is not reached from any handler of Worker", w)
+            continue
+        chk.ob(rid, f"the sampler is {kind} only after a drain of the old one that follows the last point at which the load generator can add samples", ok, w, detail,
+               key=f"{_D}:{source.qualname(w)}:old-sampler-drained-before-it-is-{kind}")
+    # non-vacuity: the timer handler does move on to the next row when it OBSERVES that the executor has finished (not only at the start of a step)
+    n_live = sum(1 for w in flow.writes for root, st in flow.at_write.get(id(w), (w, ()))[1] if root == wk.name and st[0] == 2 and not (isinstance(w.value, ast.Constant) and w.value.value is None))
+    chk.ob(rid, "executor-finished branch located in the wake-up handler", n_live >= 1, wk, f"{n_live} state(s) in which the handler reaches a replacement of the sampler after it observed the completion of the executor")
+    return flow
 
 
 def flush_no_fallible_gap(chk, rid, met):
@@ -61,9 +316,12 @@ def run(chk):
         "Decides the shipping / post-processing / hand-over skeleton: the sampler's drain returns everything it dequeues; the drain is read once per "
         "shipment and is both payload and return value; the driver appends the whole payload; post-processing works on a snapshot taken before the reset; "
         "each kept sample yields exactly three records fed from the attribute of the same name (plus one service_time per dependent timing, fed from the timing); "
-        "throughput is computed from the unfiltered list; every hand-over clears the driver's store after post-processing and is consumed by exactly one bulk_add."
+        "throughput is computed from the unfiltered list; every hand-over clears the driver's store after post-processing and is consumed by exactly one bulk_add; "
+        "a two-fact abstract interpretation of the Worker's handlers (may the load generator still add samples / may the sampler hold undrained samples) shows that every "
+        "replacement or drop of the sampler follows a drain taken after the completion of the load generator was observed."
     )
-    chk.not_decided = "at-least/at-most-once under message loss, ES bulk partial failures, the executor-thread/actor-thread race on the queue."
+    chk.not_decided = ("at-least/at-most-once under message loss, ES bulk partial failures, the executor-thread/actor-thread race on the queue; the worker analysis assumes the "
+                       "driver's protocol (Drive is sent only to workers waiting at a join point; the handlers that deliver the executor's inputs run before the first executor).")
     W = drv.cls("Worker")
     wm = drv.methods(W)
     S = drv.cls("Sampler")
@@ -404,8 +662,11 @@ def run(chk):
     chk.ob("O7.8", "the final metrics of BenchmarkComplete reach the coordinator on every path", ok, st[0] if st else h, "")
 
     # ---- O7.9 samples precede the barrier message ----------------------------------------------------------------------------------------------
-    chk.rule("O7.9", "on the join-point path the final drain (send_samples) is unconditional, precedes send(JoinPointReached) and precedes dropping the sampler", 2,
-             "last step of any race (or the last sample of any step): samples queued after the last periodic drain are never shipped")
+    chk.rule("O7.9", "on the join-point path the final drain (send_samples) is unconditional, precedes send(JoinPointReached) and precedes dropping the sampler; every path on which the "
+             "worker replaces or drops its sampler passes through a drain of the old one after the last point at which the load generator can add samples; samples are shipped "
+             "periodically while it runs", 2,
+             "last step of any race (or the last sample of any step, or of any round of a parallel element with more tasks than clients): samples queued after the last periodic "
+             "drain are never shipped")
     wd = wm.get("drive")
     gw = cfg_of(wd)
     jp = [c for c in source.calls_in(wd, attr="send") if len(c.args) >= 2 and isinstance(c.args[1], ast.Call) and last_attr(c.args[1].func) == "JoinPointReached"]
@@ -418,13 +679,24 @@ def run(chk):
     ok = bool(sc) and all(gw.dominated_by_nodes(gw.node_of(d), [gw.node_of(c) for c in sc]) for d in drop)
     chk.ob("O7.9", "final drain precedes dropping the sampler", ok, drop[0] if drop else wd, "")
     res = [n for n in walk_body(wd) if isinstance(n, ast.Call) and last_attr(n.func) == "result"]
-    ok = bool(res) and bool(sc) and not any(gw.path_exists(gw.node_of(c), gw.node_of(r)) for c in sc for r in res)
-    chk.ob("O7.9", "the executor has finished before the final drain", ok, sc[0] if sc else wd, "")
+    # the drains that no wait for the executor can follow (an additional, earlier drain - e.g. on entry to drive() - is harmless) still cover every path to the barrier message
+    late = [c for c in sc if not any(gw.path_exists(gw.node_of(c), gw.node_of(r)) for r in res)]
+    ok = bool(res) and bool(late) and gw.dominated_by_nodes(gw.node_of(jp[0]), [gw.node_of(c) for c in late])
+    chk.ob("O7.9", "the executor has finished before the final drain", ok, late[0] if late else (sc[0] if sc else wd), "" if ok else "no drain after the wait for the executor covers every path to JoinPointReached")
     # periodic drain in the wake-up handler
     wk = wm.get("receiveMsg_WakeupMessage")
     ok = any(isinstance(n, ast.Call) and last_attr(n.func) == "send_samples" for n in walk_body(wk))
     chk.ob("O7.9", "periodic drain on wake-up", ok, wk, "")
-    drain_before_drive_rule(chk, "O7.9", drv)
+    flow = drain_before_drive_rule(chk, "O7.9", drv)
+    # periodic shipping while the executor runs: the wake-up that finds it still running (the one that re-arms the timer) has shipped what was queued so far
+    gk = cfg_of(wk)
+    ship = flow.drainers()
+    pdr = [c for c in walk_body(wk) if isinstance(c, ast.Call) and is_self_attr(c.func) and c.func.attr in ship]
+    rearm = [c for c in walk_body(wk) if isinstance(c, ast.Call) and is_self_attr(c.func) and c.func.attr == "wakeupAfter"]
+    ok = bool(rearm) and bool(pdr) and all(gk.dominated_by_nodes(gk.node_of(r), [gk.node_of(d) for d in pdr]) for r in rearm)
+    chk.ob("O7.9", "the wake-up that finds the executor still running ships the queued samples before it re-arms the timer", ok, rearm[0] if rearm else wk,
+           "" if ok else "the periodic wake-up re-arms the timer without shipping: samples pile up in the bounded queue until the task ends (and are dropped once it is full)",
+           key=f"{_D}:Worker.receiveMsg_WakeupMessage:periodic-drain-before-rearm")
     repl = [n for n in walk_body(wd) if isinstance(n, ast.Assign) and any(is_self_attr(t, "sampler") for t in n.targets) and isinstance(n.value, ast.Call)]
     others = [n for f_ in wm.values() if f_ is not wd and f_.name != "__init__" for n in walk_body(f_) if isinstance(n, ast.Assign) and any(is_self_attr(t, "sampler") for t in n.targets)]
     chk.ob("O7.9", "the sampler is replaced only in drive()", bool(repl) and not others, others[0] if others else wd, "")
@@ -473,7 +745,30 @@ VARIANTS = [
       "            self.send(self.driver_actor, JoinPointReached(self.worker_id, task_allocations))\n            self.send_samples()\n            self.cancel.clear()\n            self.complete.clear()\n            self.executor_future = None\n            self.sampler = None", "O7.9"),
     V("ES buffer emptied before sending", "break", _M, "            self._client.bulk_index(index=self._index, items=self._docs)\n            sw.stop()", "            docs, self._docs = self._docs, []\n            self._client.bulk_index(index=self._index, items=self._docs)\n            sw.stop()", "O7.10"),
     V("ES buffer never emptied", "break", _M, "                sw.total_time(),\n            )\n        self._docs = []", "                sw.total_time(),\n            )", "O7.10"),
+    # F23 (rally f7c4bc2): the old sampler is drained after the executor is known to have finished, before it is replaced
+    V("F23 reverted: next round's sampler replaces the old one without a final drain", "break", _D,
+      "                self.send_samples()\n                self.sampler = Sampler(", "                self.sampler = Sampler(", "O7.9"),
+    V("F23: the drain comes after the replacement (drains the new, empty sampler)", "break", _D,
+      "                self.send_samples()\n                self.sampler = Sampler(start_timestamp=time.perf_counter(), buffer_size=self.sample_queue_size)\n",
+      "                self.sampler = Sampler(start_timestamp=time.perf_counter(), buffer_size=self.sample_queue_size)\n                self.send_samples()\n", "O7.9"),
+    [V("F23: the only drain before the replacement runs before the done() check (wake-up handler), none in drive()", "break", _D,
+       "                self.send_samples()\n                self.sampler = Sampler(", "                self.sampler = Sampler(", "O7.9"),
+     V("", "break", _D, "            elif self.executor_future is not None and self.executor_future.done():", "            elif self.send_samples() is not None and self.executor_future is not None and self.executor_future.done():")],
+    [V("samples are shipped only once the executor has finished, never while it runs", "break", _D,
+       "            current_samples = self.send_samples()\n            if self.cancel.is_set():", "            current_samples = None\n            if self.cancel.is_set():", "O7.9"),
+     V("", "break", _D, "                    self.executor_future = None\n                    self.drive()", "                    self.executor_future = None\n                    self.send_samples()\n                    self.drive()")],
     # preserving
+    V("F23 respelled: the final drain is hoisted above the debug line", "keep", _D,
+      "                self.logger.debug(\"Worker[%d] is executing tasks at index [%d].\", self.worker_id, self.current_task_index)\n"
+      "                # the previous tasks may have finished after the last periodic drain: ship their remaining samples before the sampler is replaced\n                self.send_samples()\n",
+      "                self.send_samples()\n                self.logger.debug(\"Worker[%d] is executing tasks at index [%d].\", self.worker_id, self.current_task_index)\n"),
+    [V("F23 respelled: the final drain sits in the wake-up handler AFTER the done() check instead of in drive()", "keep", _D,
+       "                self.send_samples()\n                self.sampler = Sampler(", "                self.sampler = Sampler("),
+     V("", "keep", _D, "                    self.executor_future = None\n                    self.drive()", "                    self.executor_future = None\n                    self.send_samples()\n                    self.drive()")],
+    [V("F23 respelled: the final drain is taken for the whole not-a-join-point arm (also before skipped rows)", "keep", _D,
+       "            if self.complete.is_set():\n                self.logger.info(\n                    \"Worker[%d] skips tasks",
+       "            self.send_samples()\n            if self.complete.is_set():\n                self.logger.info(\n                    \"Worker[%d] skips tasks"),
+     V("", "keep", _D, "                self.send_samples()\n                self.sampler = Sampler(", "                self.sampler = Sampler(")],
     V("tuple-swap snapshot", "keep", _D, "        raw_samples = self.raw_samples\n        self.raw_samples = []\n        self.sample_post_processor(raw_samples)", "        raw_samples, self.raw_samples = self.raw_samples, []\n        self.sample_post_processor(raw_samples)"),
     V("extend instead of +=", "keep", _D, "            self.raw_samples += samples", "            self.raw_samples.extend(samples)"),
     V("positional clear", "keep", _D, "        m = self.metrics_store.to_externalizable(clear=True)\n        self.driver_actor.on_task_finished(m, waiting_period)", "        m = self.metrics_store.to_externalizable(True)\n        self.driver_actor.on_task_finished(m, waiting_period)"),
